@@ -54,6 +54,17 @@ func (rt *runtime) cmplCallNodeFunction(function *object, stash *fnStash, node *
 		rt.scope.lexical.setValue(name, value, false)
 	}
 
+	// 10.6 step 11.c: a duplicated parameter name is mapped at its last index only;
+	// the earlier indices are plain properties holding the passed values.
+	for index, name := range indexOfParameterName {
+		for _, later := range indexOfParameterName[index+1:] {
+			if name != "" && later == name {
+				indexOfParameterName[index] = ""
+				break
+			}
+		}
+	}
+
 	if !argumentsFound {
 		arguments := rt.newArgumentsObject(indexOfParameterName, stash, len(argumentList))
 		arguments.defineProperty("callee", objectValue(function), 0o101, false)
@@ -61,7 +72,7 @@ func (rt *runtime) cmplCallNodeFunction(function *object, stash *fnStash, node *
 		// strict = false
 		rt.scope.lexical.setValue("arguments", objectValue(arguments), false)
 		for index := range argumentList {
-			if index < len(node.parameterList) {
+			if index < len(node.parameterList) && indexOfParameterName[index] != "" {
 				continue
 			}
 			indexAsString := strconv.FormatInt(int64(index), 10)
